@@ -79,6 +79,8 @@ def join(a, b):
         return AV(a.t or b.t, a.st or b.st, 'dataset', dom=join(a.dom, b.dom), undo=a.undo and b.undo)
     if a.kind == b.kind == 'func':
         return a
+    if a.kind == b.kind == 'noisefn':
+        return a
     if a.kind == b.kind:
         return AV(a.t or b.t, a.st or b.st, a.kind, frame=a.frame or b.frame, count=(a.count or not a.t) and (b.count or not b.t)
                   and (a.t or b.t), why=a.why or b.why, undo=a.undo and b.undo)
@@ -314,6 +316,9 @@ class Taint:
         if (mod.dotted(e) or '') in ('numpy.random',):
             return AV(kind='rng')
         b = self.ev(e.value, env, mod)
+        if e.attr in NOISE_FUNCS and (b.kind == 'rng' or (mod.dotted(e) or '').startswith('numpy.random')):
+            # a noise sampler taken as a value (`sample = np.random.laplace if ... else np.random.normal`)
+            return AV(kind='noisefn', fn=e)
         if b.kind == 'dataset':
             if e.attr == 'domain':
                 return b.dom or CLEAN()
@@ -396,6 +401,11 @@ class Taint:
         for a in allv:
             why = why or a.reason()
         # ---- DP primitives: noise --------------------------------------------------------------------------
+        if isinstance(f, ast.Name):
+            fv = self.ev(f, env, mod)
+            if fv.kind == 'noisefn':
+                call2 = ast.copy_location(ast.Call(func=fv.fn, args=e.args, keywords=e.keywords), e)
+                return self.ev_Call(call2, env, mod)
         if isinstance(f, ast.Attribute) and (f.attr in NOISE_FUNCS or f.attr in NOISE_METHODS):
             d = mod.dotted(f) or ''
             recv = U(f.value)
